@@ -73,7 +73,7 @@ class Gen:
         if k == 6:
             return r.choice(['"s t"', "'q'", '"a#{1 + 1}b"', '"\\"esc"', "unquote(\"u\")"])
         if k == 7:
-            return r.choice(["#abc", "red", "true", "false", "null", "(1 2 3)", "(1, 2)", "[a b]"])
+            return r.choice(["#abc", "red", "true", "false", "null", "(1 2 3)", "(1, 2)", "[a b]", "1px -1px 2px -.5px", "3em -1em", "2 -1"])
         if k == 8 and self.funcs:
             name, ar = r.choice(self.funcs)
             return f"{self.swap_some(name)}({', '.join(self.num() for _ in range(ar))})"
